@@ -832,6 +832,72 @@ func setAdmits(as, cs []cty.Value) bool {
 	return rec(0)
 }
 
+// semEq is RawEquals up to the representation of unknown values: two
+// unknowns of the same type with the same marks are the same value when their
+// reported ranges agree (an absent refinement record and an empty one are not
+// distinguished).
+func semEq(a, b cty.Value) (eq bool) {
+	defer func() {
+		if r := recover(); r != nil {
+			eq = false
+		}
+	}()
+	if rawEq(a, b) {
+		return true
+	}
+	if !a.Type().Equals(b.Type()) || marksStr(rootMarks(a)) != marksStr(rootMarks(b)) {
+		return false
+	}
+	a, _ = a.Unmark()
+	b, _ = b.Unmark()
+	if a.IsKnown() != b.IsKnown() {
+		return false
+	}
+	if !a.IsKnown() {
+		ra, rb := a.Range(), b.Range()
+		if ra.CouldBeNull() != rb.CouldBeNull() {
+			return false
+		}
+		ty := a.Type()
+		switch {
+		case ty == cty.Number:
+			al, ai := ra.NumberLowerBound()
+			bl, bi := rb.NumberLowerBound()
+			ah, ahi := ra.NumberUpperBound()
+			bh, bhi := rb.NumberUpperBound()
+			return rawEq(al, bl) && rawEq(ah, bh) && (ai == bi || isInf(al)) && (ahi == bhi || isInf(ah))
+		case ty == cty.String:
+			return ra.StringPrefix() == rb.StringPrefix()
+		case ty.IsCollectionType():
+			return ra.LengthLowerBound() == rb.LengthLowerBound() && ra.LengthUpperBound() == rb.LengthUpperBound()
+		}
+		return true
+	}
+	if a.IsNull() || b.IsNull() {
+		return a.IsNull() && b.IsNull()
+	}
+	ca, cb := children(a), children(b)
+	if ca == nil || len(ca) != len(cb) {
+		return false
+	}
+	if a.Type().IsMapType() || a.Type().IsObjectType() {
+		ma, mb := a.AsValueMap(), b.AsValueMap()
+		for k, va := range ma {
+			vb, ok := mb[k]
+			if !ok || !semEq(va, vb) {
+				return false
+			}
+		}
+		return true
+	}
+	for i := range ca {
+		if !semEq(ca[i], cb[i]) {
+			return false
+		}
+	}
+	return true
+}
+
 // whollyKnownRef is the checker's own wholly-known test (does not rely on
 // IsWhollyKnown).
 func whollyKnownRef(v cty.Value) bool {
